@@ -2,7 +2,7 @@ import builtins
 import math
 import numbers
 from collections.abc import Callable, Iterable, Iterator, Sequence
-from dataclasses import dataclass
+from dataclasses import dataclass, replace
 from functools import partial
 from itertools import chain, product
 from numbers import Integral, Number
@@ -27,6 +27,7 @@ from cubed.primitive.blockwise import ChunkKey, FunctionArgs
 from cubed.primitive.blockwise import blockwise as primitive_blockwise
 from cubed.primitive.blockwise import general_blockwise as primitive_general_blockwise
 from cubed.primitive.memory import get_buffer_copies
+from cubed.primitive.types import CubedArrayProxy
 from cubed.spec import spec_from_config
 from cubed.storage.store import is_storage_array, open_storage_array
 from cubed.storage.zarr import LazyZarrArray, lazy_zarr_array
@@ -292,19 +293,39 @@ def _store_array(
                 if n not in predecessor_ops:
                     continue
                 if "primitive_op" in d:
-                    # replace primitive op target array with new target
-                    # and mark as not fusable with successors as store must be written
+                    # Replace the primitive op with a copy that writes to the new target,
+                    # and mark it as not fusable with successors as store must be written.
+                    # The op object is shared with the plans of arrays already derived from
+                    # source, which still read source from its previous location, so it must
+                    # not be changed in place.
                     op = d["primitive_op"]
-                    op.target_array = target
-                    op.fusable_with_successors = False
+                    config = op.pipeline.config
 
                     # replace write proxy target array with new target
-                    pipeline = op.pipeline
-                    writes_map = pipeline.config.writes_map
+                    writes_map = dict(config.writes_map)
                     if source.name in writes_map:
-                        writes_map[source.name].array = target
-                    if blockwise_kwargs.get("return_writes_stores", False):
-                        pipeline.config.return_writes_stores = True
+                        writes_map[source.name] = CubedArrayProxy(
+                            target, writes_map[source.name].chunks
+                        )
+                    return_writes_stores = (
+                        config.return_writes_stores
+                        or blockwise_kwargs.get("return_writes_stores", False)
+                    )
+                    new_pipeline = replace(
+                        op.pipeline,
+                        config=replace(
+                            config,
+                            writes_map=writes_map,
+                            return_writes_stores=return_writes_stores,
+                        ),
+                    )
+                    d["primitive_op"] = replace(
+                        op,
+                        pipeline=new_pipeline,
+                        target_array=target,
+                        fusable_with_successors=False,
+                    )
+                    d["pipeline"] = new_pipeline
             # return the updated source
             return source
 
